@@ -138,7 +138,19 @@ func (r *renderer) stmt(s ast.Stmt) string {
 	case *ast.BlockStmt:
 		return "{" + strings.Join(r.block(s.List), "; ") + "}"
 	case *ast.SelectStmt:
-		return "select"
+		var cs []string
+		for _, c := range s.Body.List {
+			cc, ok := c.(*ast.CommClause)
+			if !ok {
+				continue
+			}
+			head := "default"
+			if cc.Comm != nil {
+				head = "case " + r.stmt(cc.Comm)
+			}
+			cs = append(cs, head+":{"+strings.Join(r.block(cc.Body), "; ")+"}")
+		}
+		return "select{" + strings.Join(cs, " ") + "}"
 	default:
 		return fmt.Sprintf("stmt:%T", s)
 	}
@@ -235,6 +247,9 @@ func Facts(repo string) (string, error) {
 	// Wait: only the untimed path matters (last statement)
 	w := bodies["Limiter.Wait"]
 	fmt.Fprintf(&b, "def waitUntimedTail : String := %q\n\n", w[len(w)-1])
+	// Wait(d): everything before the untimed tail (the machine's `waitTimed` step claims
+	// that it touches neither the channel l.c nor the WaitGroup counter)
+	fmt.Fprintf(&b, "def waitTimedBody : List String := %s\n\n", leanList(w[:len(w)-1]))
 	b.WriteString("end Golib.Gen.C19\n")
 	return b.String(), nil
 }
